@@ -361,7 +361,7 @@ func crashTableState(fs *crashFS, dir string) crashTableAbs {
 
 // crashAbstract classifies every object of a database directory image. bare = the directory is a bare WAL directory.
 func crashAbstract(fs *crashFS, bare bool) *crashAbs {
-	a := &crashAbs{}
+	a := &crashAbs{WalDir: bare} // bare: the directory itself is the log directory
 	for _, p := range fs.paths() {
 		n := fs.nodes[p]
 		parts := strings.Split(p, "/")
